@@ -336,18 +336,22 @@ Lemma agg_eq_rows (a b : list (key * list Q)) : agg_eq a b ->
   Forall2 orow_eq (map (fun kv => Some (snd kv)) a) (map (fun kv => Some (snd kv)) b).
 Proof. induction 1 as [|x y a b [_ E] _ IH]; cbn; constructor; [exact E | exact IH]. Qed.
 
-Lemma estimate_perm (ug hg : bool) (tcols names : list str) (rows rows' : list trow) (gt : gtarg) :
-  Permutation rows rows' -> est_eq (estimate ug hg tcols names rows gt) (estimate ug hg tcols names rows' gt).
+Lemma estimate_gen_perm (b ug hg : bool) (tcols names : list str) (rows rows' : list trow) (gt : gtarg) :
+  Permutation rows rows' -> est_eq (estimate_gen b ug hg tcols names rows gt) (estimate_gen b ug hg tcols names rows' gt).
 Proof.
-  intros P. unfold estimate. destruct (resolve tcols names) as [sel|]; [|exact I].
+  intros P. unfold estimate_gen. destruct (resolve tcols names) as [sel|]; [|exact I].
   destruct (ug && negb hg); [exact I|].
-  pose proof (agg_perm ug sel rows rows' P) as AE.
   destruct gt as [[[gtx|] gtg]|]; cbn.
-  - repeat split; try reflexivity. now apply join_agg_eq.
+  - repeat split; try reflexivity. apply join_agg_eq. now apply agg_perm.
   - exact I.
-  - split; [exact (agg_eq_proj fst _ _ AE)|]. split; [|split; [reflexivity | now apply agg_eq_rows]].
+  - pose proof (agg_perm ug sel rows rows' P) as AE.
+    split; [exact (agg_eq_proj fst _ _ AE)|]. split; [|split; [reflexivity | now apply agg_eq_rows]].
     destruct ug; [|reflexivity]. f_equal. exact (agg_eq_proj (fun k => grp_code (snd k)) _ _ AE).
 Qed.
+
+Lemma estimate_perm (ug hg : bool) (tcols names : list str) (rows rows' : list trow) (gt : gtarg) :
+  Permutation rows rows' -> est_eq (estimate ug hg tcols names rows gt) (estimate ug hg tcols names rows' gt).
+Proof. apply estimate_gen_perm. Qed.
 
 Lemma estimate_aligned (ug hg : bool) (tcols names : list str) (rows : list trow) (gtx : list str) (gtg : option (list Z)) (o : est_out) :
   estimate ug hg tcols names rows (Some (Some gtx, gtg)) = Some o ->
@@ -355,15 +359,15 @@ Lemma estimate_aligned (ug hg : bool) (tcols names : list str) (rows : list trow
   let '(tx, tg, tr, m) := o in
   tx = gtx /\ tg = gtg /\ tr = tcols /\ length m = length gtx /\
   forall i x, nth_error gtx i = Some x ->
-    (single_key ug rows -> (exists r, In r rows /\ t_taxa r = x) ->
+    ((exists r, In r rows /\ t_taxa r = x) ->
        nth_error m i = Some (Some (mean_rows sel (filter (of_taxon x) rows)))) /\
     ((forall r, In r rows -> t_taxa r <> x) -> nth_error m i = Some None).
 Proof.
-  unfold estimate. destruct (resolve tcols names) as [sel|]; [|discriminate].
-  destruct (ug && negb hg); [discriminate|]. intros E. inversion E; subst o. clear E.
+  unfold estimate, estimate_gen. destruct (resolve tcols names) as [sel|]; [|discriminate].
+  destruct (ug && negb hg); [discriminate|]. rewrite andb_false_r. intros E. inversion E; subst o. clear E.
   exists sel. split; [reflexivity|]. repeat split; try reflexivity.
   - unfold join. apply map_length.
-  - intros SK EX. unfold join. rewrite nth_error_map, H. cbn. f_equal. now apply lookup_aligned.
+  - intros EX. unfold join. rewrite nth_error_map, H. cbn. f_equal. apply lookup_aligned; [apply single_key_nogrp | exact EX].
   - intros AB. unfold join. rewrite nth_error_map, H. cbn. f_equal. now apply lookup_absent.
 Qed.
 
@@ -377,7 +381,7 @@ Lemma estimate_groups (ug hg : bool) (tcols names : list str) (rows : list trow)
   (forall k, In k (keys_of ug rows) <-> exists r, In r rows /\ key_of ug r = k) /\
   m = map (fun k => Some (mean_rows sel (members ug k rows))) (keys_of ug rows).
 Proof.
-  unfold estimate. destruct (resolve tcols names) as [sel|]; [|discriminate].
+  unfold estimate, estimate_gen. destruct (resolve tcols names) as [sel|]; [|discriminate].
   destruct (ug && negb hg); [discriminate|]. intros E. inversion E; subst o. clear E.
   exists sel. split; [reflexivity|]. unfold agg. rewrite !map_map. cbn.
   repeat split; try reflexivity.
@@ -725,9 +729,15 @@ Lemma phenotype_inv n t taxa grp gvm nenv nrep sde sdr sdx flat recs :
   exists ds, parse_envs (firstn nenv nrep) n t flat = Some (ds, []) /\
              recs = env_blocks (labels_or_auto "Taxon"%string n taxa) (grp_col n grp) gvm sde sdr sdx 1%Z ds.
 Proof.
-  unfold phenotype. destruct (parse_envs _ n t flat) as [[ds [|x rem]]|] eqn:P; try discriminate.
+  unfold phenotype. destruct (length nrep <? nenv)%nat; [discriminate|]. unfold phenotype_loop.
+  destruct (parse_envs _ n t flat) as [[ds [|x rem]]|] eqn:P; try discriminate.
   intros H. inversion H. exists ds. split; reflexivity.
 Qed.
+
+(** a call that returns has a replicate count for every environment *)
+Lemma phenotype_nrep_len n t taxa grp gvm nenv nrep sde sdr sdx flat recs :
+  phenotype n t taxa grp gvm nenv nrep sde sdr sdx flat = Some recs -> (nenv <= length nrep)%nat.
+Proof. unfold phenotype. destruct (Nat.ltb_spec (length nrep) nenv); [discriminate | auto]. Qed.
 
 Lemma phenotype_cells n t taxa grp gvm nenv nrep sde sdr sdx flat recs :
   phenotype n t taxa grp gvm nenv nrep sde sdr sdx flat = Some recs ->
@@ -776,24 +786,102 @@ Proof.
   eapply (zero_noise_truth _ _ gvm sde sdr sdx n t); eassumption.
 Qed.
 
-(** the trial has min(nenv, len(nrep attribute)) environments: all nenv of them unless nenv was raised after nrep was set *)
+(** the trial has exactly nenv environments, environment e with the e-th stored replicate count (full strength since
+    commit c6ec4108: a stored nrep array shorter than nenv is refused) *)
 Lemma phenotype_envs n t taxa grp gvm nenv nrep sde sdr sdx flat recs :
   phenotype n t taxa grp gvm nenv nrep sde sdr sdx flat = Some recs ->
-  exists ds, parse_envs (firstn nenv nrep) n t flat = Some (ds, []) /\ length ds = Nat.min nenv (length nrep) /\
-             (forall nenv0 a, nrep = nrep_vec nenv0 a -> (forall l, a = NArr l -> length l = nenv0) -> (nenv <= nenv0)%nat -> length ds = nenv).
+  exists ds, parse_envs (firstn nenv nrep) n t flat = Some (ds, []) /\ length ds = nenv /\
+             map (fun ed : envdraw => length (snd ed)) ds = firstn nenv nrep.
 Proof.
-  intros H. apply phenotype_inv in H as (ds & P & _). exists ds. split; [exact P|].
-  destruct (parse_envs_ok n t _ _ _ _ P) as [_ Ln].
-  assert (L : length ds = Nat.min nenv (length nrep)) by (rewrite <- (map_length (fun ed : envdraw => length (snd ed)) ds), Ln; apply firstn_length).
-  split; [exact L|]. intros nenv0 a -> Ha Hle. rewrite L.
-  assert (La : length (nrep_vec nenv0 a) = nenv0) by (destruct a as [k|l]; cbn; [apply repeat_length | now apply Ha]).
-  rewrite La. lia.
+  intros H. pose proof (phenotype_nrep_len _ _ _ _ _ _ _ _ _ _ _ _ H) as Hle.
+  apply phenotype_inv in H as (ds & P & _). exists ds. split; [exact P|].
+  destruct (parse_envs_ok n t _ _ _ _ P) as [_ Ln]. split; [|exact Ln].
+  rewrite <- (map_length (fun ed : envdraw => length (snd ed)) ds), Ln, firstn_length. lia.
 Qed.
 
-Lemma phenotype_stale_nrep_refuted :
-  exists recs, phenotype 1 1 None None [[1]] 3 (nrep_vec 1 (NScalar 1)) [0] [0] [0] [[0]; [0]; [0]] = Some recs /\
+(** the nenv setter keeps a uniform stored nrep array in step with nenv *)
+Lemma uniform_repeat (k m : nat) : uniform (repeat k m) = true.
+Proof.
+  destruct m as [|m]; [reflexivity|]. cbn. induction m as [|m IH]; cbn; [reflexivity|]. now rewrite Nat.eqb_refl.
+Qed.
+
+Lemma set_nenv_same (nenv' : nat) (attr : list nat) : length attr = nenv' -> set_nenv nenv' attr = attr.
+Proof. intros L. unfold set_nenv. now rewrite L, Nat.eqb_refl. Qed.
+
+Lemma uniform_eq_repeat : forall (l : list nat) (h : nat), forallb (Nat.eqb h) l = true -> l = repeat h (length l).
+Proof.
+  induction l as [|x l IH]; intros h H; cbn in *; [reflexivity|].
+  apply andb_true_iff in H as [E H]. apply Nat.eqb_eq in E. subst x. f_equal. now apply IH.
+Qed.
+
+Lemma set_nenv_uniform (nenv' : nat) (attr : list nat) (h : nat) :
+  uniform (h :: attr) = true -> set_nenv nenv' (h :: attr) = repeat h nenv'.
+Proof.
+  intros U. unfold set_nenv. destruct (Nat.eqb_spec (length (h :: attr)) nenv') as [E|N].
+  - cbn in U. rewrite (uniform_eq_repeat attr h U) at 1. rewrite <- E. cbn. reflexivity.
+  - now rewrite U.
+Qed.
+
+Lemma nrep_attr_scalar (nenv0 k nenv' : nat) : (0 < nenv0)%nat ->
+  nrep_attr_of nenv0 (NScalar k) (Some nenv') = nrep_vec nenv' (NScalar k).
+Proof.
+  intros H. unfold nrep_attr_of, nrep_vec. destruct nenv0 as [|m]; [lia|]. cbn [repeat].
+  apply set_nenv_uniform. exact (uniform_repeat k (S m)).
+Qed.
+
+Lemma nrep_attr_spec (nenv0 : nat) (a : nreparg) (nenv' : nat) :
+  (0 < nenv0)%nat -> (forall l, a = NArr l -> length l = nenv0) ->
+  let attr := nrep_attr_of nenv0 a (Some nenv') in
+  (forall k, a = NScalar k -> attr = repeat k nenv') /\
+  (forall l, a = NArr l -> nenv0 = nenv' -> attr = l) /\
+  (forall l h, a = NArr l -> uniform l = true -> hd_error l = Some h -> attr = repeat h nenv') /\
+  (forall l, a = NArr l -> nenv0 <> nenv' -> uniform l = false -> attr = l).
+Proof.
+  intros H0 Ha attr. unfold attr. split; [|split; [|split]].
+  - intros k ->. now apply nrep_attr_scalar.
+  - intros l -> E. cbn. apply set_nenv_same. rewrite (Ha l eq_refl). exact E.
+  - intros l h -> U Hh. cbn. destruct l as [|x l]; [discriminate|]. cbn in Hh. inversion Hh; subst x. now apply set_nenv_uniform.
+  - intros l -> N U. cbn. unfold set_nenv. rewrite (Ha l eq_refl). destruct (Nat.eqb_spec nenv0 nenv'); [contradiction|].
+    destruct l; [reflexivity|]. now rewrite U.
+Qed.
+
+Lemma list_sum_repeat (k m : nat) : list_sum (repeat k m) = (m * k)%nat.
+Proof. induction m as [|m IH]; cbn; [reflexivity|]. fold (list_sum (repeat k m)). rewrite IH. lia. Qed.
+
+(** end to end: an integer nrep = k given at construction (any nenv0 > 0), nenv reassigned to nenv' afterwards: the trial
+    has nenv' environments with k replicates each, n * nenv' * k records *)
+Lemma phenotype_after_set_nenv n t taxa grp gvm nenv0 k nenv' sde sdr sdx flat recs :
+  (0 < nenv0)%nat -> labels_ok n taxa grp -> length gvm = n ->
+  phenotype n t taxa grp gvm nenv' (nrep_attr_of nenv0 (NScalar k) (Some nenv')) sde sdr sdx flat = Some recs ->
+  exists ds, parse_envs (repeat k nenv') n t flat = Some (ds, []) /\ length ds = nenv' /\
+             map (fun ed : envdraw => length (snd ed)) ds = repeat k nenv' /\ length recs = (n * (nenv' * k))%nat.
+Proof.
+  intros H0 LO Lg H. rewrite nrep_attr_scalar in H by exact H0. cbn [nrep_vec] in H.
+  assert (F : firstn nenv' (repeat k nenv') = repeat k nenv').
+  { rewrite <- (repeat_length k nenv') at 1. apply firstn_all. }
+  destruct (phenotype_envs _ _ _ _ _ _ _ _ _ _ _ _ H) as (ds & P & L & M).
+  destruct (phenotype_cells _ _ _ _ _ _ _ _ _ _ _ _ H LO Lg) as (ds' & _ & _ & LR & _).
+  rewrite F in P, M, LR. exists ds. repeat split; try assumption.
+  now rewrite LR, list_sum_repeat.
+Qed.
+
+(** the former code (stale nrep array, no length check): nrep broadcast for nenv = 1, then nenv := 3 -- environments 2 and 3 got no record *)
+Lemma old_phenotype_stale_nrep_refuted :
+  exists recs, old_phenotype 1 1 None None [[1]] 3 (old_nrep_attr_of 1 (NScalar 1) (Some 3%nat)) [0] [0] [0] [[0]; [0]; [0]] = Some recs /\
                length recs = 1%nat /\ filter (cell_is 2 1) recs = [] /\ filter (cell_is 3 1) recs = [].
 Proof. eexists. split; [vm_compute; reflexivity|]. repeat split. Qed.
+
+(** the former code with an array: nrep = [1; 2] for nenv = 2, then nenv := 3 -- a trial of 2 environments was returned
+    without an error; the code in force refuses *)
+Lemma old_phenotype_short_nrep_refuted :
+  let flat := [[0]; [0]; [0];  [0]; [0]; [0]; [0]; [0]] in
+  (exists recs, old_phenotype 1 1 None None [[1]] 3 (old_nrep_attr_of 2 (NArr [1; 2]%nat) (Some 3%nat)) [0] [0] [0] flat = Some recs /\
+                length recs = 3%nat /\ forall r, filter (cell_is 3 r) recs = []) /\
+  phenotype 1 1 None None [[1]] 3 (nrep_attr_of 2 (NArr [1; 2]%nat) (Some 3%nat)) [0] [0] [0] flat = None.
+Proof.
+  cbv zeta. split; [|vm_compute; reflexivity]. eexists. split; [vm_compute; reflexivity|]. split; [reflexivity|].
+  intro r. cbn. unfold cell_is; cbn. reflexivity.
+Qed.
 
 (** the request stream is consumed in the order env, (rep, err)*, per environment: flattening well-shaped
     structured draws in that order parses back to them, with nothing left over *)
@@ -836,29 +924,28 @@ Proof.
   intros H i x Hx Hab. destruct (estimate_aligned _ _ _ _ _ _ _ _ H) as (sel & _ & _ & _ & _ & _ & A). now apply (A i x Hx).
 Qed.
 
-Lemma estimate_aligned_partial (ug hg : bool) (tcols names : list str) (rows : list trow) (gtx : list str) (gtg : option (list Z))
+Lemma estimate_aligned_full (ug hg : bool) (tcols names : list str) (rows : list trow) (gtx : list str) (gtg : option (list Z))
     (tx : list str) (tg : option (list Z)) (tr : list str) (m : list (option (list Q))) :
   estimate ug hg tcols names rows (Some (Some gtx, gtg)) = Some (tx, tg, tr, m) ->
   tx = gtx /\ tg = gtg /\ tr = tcols /\ length m = length gtx /\
   exists sel, resolve tcols names = Some sel /\
-  (ug = false \/ single_key ug rows ->
    forall i x, nth_error gtx i = Some x -> (exists r, In r rows /\ t_taxa r = x) ->
      let recs := filter (of_taxon x) rows in
      recs <> [] /\
-     nth_error m i = Some (Some (map (fun j => sumQ (map (fun r => nth j (t_val r) 0) recs) / inject_Z (Z.of_nat (length recs))) sel))).
+     nth_error m i = Some (Some (map (fun j => sumQ (map (fun r => nth j (t_val r) 0) recs) / inject_Z (Z.of_nat (length recs))) sel)).
 Proof.
   intros H. destruct (estimate_aligned _ _ _ _ _ _ _ _ H) as (sel & R & E1 & E2 & E3 & L & A).
-  repeat split; try assumption. exists sel. split; [exact R|]. intros G i x Hx EX recs.
-  assert (SK : single_key ug rows) by (destruct G as [->|G]; [apply single_key_nogrp | exact G]).
+  repeat split; try assumption. exists sel. split; [exact R|]. intros i x Hx EX recs.
   split.
   - destruct EX as (r & Hr & Er). intro E. assert (I : In r recs) by (apply filter_In; split; [exact Hr | unfold of_taxon; now rewrite Er, String.eqb_refl]).
     rewrite E in I. exact I.
   - now apply (A i x Hx).
 Qed.
 
-Lemma estimate_join_refuted :
+(** the former code (group by (taxa, taxa_grp), join by label): a taxon recorded in two groups got the mean of its last group only *)
+Lemma old_estimate_join_refuted :
   exists (rows : list trow) (gtx : list str) tx tg tr m,
-    estimate true true ["y"%string] ["y"%string] rows (Some (Some gtx, None)) = Some (tx, tg, tr, m) /\
+    old_estimate true true ["y"%string] ["y"%string] rows (Some (Some gtx, None)) = Some (tx, tg, tr, m) /\
     exists i x, nth_error gtx i = Some x /\ (exists r, In r rows /\ t_taxa r = x) /\
       let recs := filter (of_taxon x) rows in
       exists got, nth_error m i = Some (Some [got]) /\
@@ -876,9 +963,9 @@ Lemma estimate_phenotyped_not_missing (ug hg : bool) (tcols names : list str) (r
   estimate ug hg tcols names rows (Some (Some gtx, gtg)) = Some (tx, tg, tr, m) ->
   forall i x, nth_error gtx i = Some x -> (exists r, In r rows /\ t_taxa r = x) -> exists v, nth_error m i = Some (Some v).
 Proof.
-  unfold estimate. destruct (resolve tcols names) as [sel|]; [|discriminate].
+  unfold estimate, estimate_gen. destruct (resolve tcols names) as [sel|]; [|discriminate].
   destruct (ug && negb hg); [discriminate|]. intros E. inversion E; subst. clear E.
-  intros i x Hx EX. destruct (lookup_present ug sel rows x EX) as (v & Hv). exists v.
+  intros i x Hx EX. destruct (lookup_present (ug && false) sel rows x EX) as (v & Hv). exists v.
   unfold join. rewrite nth_error_map, Hx. cbn. now rewrite Hv.
 Qed.
 
@@ -936,40 +1023,3 @@ Proof.
     rewrite (nth_error_map2 _ _ _ i (x, g) v); [reflexivity | now apply nth_error_combine | exact Hv].
 Qed.
 
-(** * 11. what the join does in general: the group with the greatest key among those carrying the label wins *)
-Lemma lookup_last_greatest (x : str) (f : key -> list Q) : forall (ks : list key) (kx : key),
-  StronglySorted klt ks -> In kx ks -> fst kx = x -> (forall k, In k ks -> fst k = x -> k = kx \/ klt k kx) ->
-  lookup_last x (map (fun k => (k, f k)) ks) = Some (f kx).
-Proof.
-  induction ks as [|k ks IH]; intros kx S Hin Hx Hmax; [destruct Hin|]. cbn.
-  apply StronglySorted_inv in S as [S Hk]. rewrite Forall_forall in Hk.
-  destruct (in_dec key_eq_dec kx ks) as [I|NI].
-  - rewrite (IH kx); auto. intros k' Hk' Fk'. apply Hmax; [now right | exact Fk'].
-  - destruct Hin as [->|Hin]; [|contradiction].
-    rewrite lookup_last_none.
-    + subst x. now rewrite String.eqb_refl.
-    + intros [k' v'] Hkv. cbn. apply in_map_iff in Hkv as (k'' & E & Hk''). inversion E; subst k'' v'. clear E.
-      intro Ek. destruct (Hmax k' (or_intror Hk'') Ek) as [->|L]; [contradiction|].
-      apply (key_ltb_asym k' kx L). now apply Hk.
-Qed.
-
-Lemma estimate_join_last_group (hg : bool) (tcols names : list str) (rows : list trow) (gtx : list str) (gtg : option (list Z))
-    (tx : list str) (tg : option (list Z)) (tr : list str) (m : list (option (list Q))) :
-  estimate true hg tcols names rows (Some (Some gtx, gtg)) = Some (tx, tg, tr, m) ->
-  exists sel, resolve tcols names = Some sel /\
-  forall i x g, nth_error gtx i = Some x ->
-    (exists r, In r rows /\ t_taxa r = x /\ t_grp r = g) ->
-    (forall r, In r rows -> t_taxa r = x -> ole (t_grp r) g) ->
-    nth_error m i = Some (Some (mean_rows sel (members true (x, g) rows))).
-Proof.
-  intros H. destruct (estimate_aligned _ _ _ _ _ _ _ _ H) as (sel & R & _). exists sel. split; [exact R|].
-  unfold estimate in H. rewrite R in H. destruct (true && negb hg); [discriminate|]. inversion H; subst. clear H.
-  intros i x g Hx (r & Hr & Et & Eg) Hmax. unfold join. rewrite nth_error_map, Hx. cbn. f_equal.
-  unfold agg. apply (lookup_last_greatest x (fun k => mean_rows sel (members true k rows))).
-  - apply keys_of_sorted.
-  - apply keys_of_In. exists r. split; [exact Hr|]. unfold key_of. now rewrite Eg, Et.
-  - reflexivity.
-  - intros k Hk Fk. apply keys_of_In in Hk as (r' & Hr' & <-). unfold key_of in *. cbn in Fk.
-    destruct (Hmax r' Hr' Fk) as [E|L]; [left; now rewrite Fk, E|].
-    right. apply key_ltb_spec. right. cbn. split; [exact Fk | exact L].
-Qed.
